@@ -166,7 +166,9 @@ class CheckC03(core.Check):
         m0 = tokens_for(parsed.pattern, parsed.psks)[0]
         # does processing message 0 involve any static key or psk?  if not, ANY party's message 0 is a
         # valid initiation for a fresh responder (inherent to Noise), whatever keys the other session has
-        keyed0 = bool(pat["pre_i"] or pat["pre_r"] or any(t in ("s", "es", "ss", "se", "psk") for t in m0))
+        # (an `s` token alone only TRANSMITS the sender's static key - under a key derived from public data in psk
+        # mode - so it does not bind the message to the receiver's context; es/ss/se and psk tokens do)
+        keyed0 = bool(pat["pre_i"] or pat["pre_r"] or any(t in ("es", "ss", "se", "psk") for t in m0))
         c.info = {"name": name, "k": k, "any_enc": any_enc, "fixed": off, "total": total, "nmsgs": parsed.nmsgs, "keyed0": keyed0}
         return c
 
